@@ -357,6 +357,9 @@ func (r *reader) readList(n datamodel.Node, path string, length int64) model.Val
 		r.mustMiss(path, "LookupBySegment(\"x\")", func() (datamodel.Node, error) {
 			return n.LookupBySegment(datamodel.PathSegmentOfString("x"))
 		})
+		// a key node that cannot name an element: an error, never (nil, nil)
+		r.mustMiss(path, "LookupByNode(string \"x\") on list", func() (datamodel.Node, error) { return n.LookupByNode(basicnode.NewString("x")) })
+		r.mustMiss(path, "LookupByNode(null) on list", func() (datamodel.Node, error) { return n.LookupByNode(datamodel.Null) })
 		if !r.opt.NoWrongKindProbes {
 			r.mustMiss(path, "LookupByString on list", func() (datamodel.Node, error) { return n.LookupByString("0") })
 			var mi datamodel.MapIterator
